@@ -9,6 +9,7 @@ import (
 	"fmt"
 	"go/types"
 	"os"
+	"strconv"
 	"os/exec"
 	"path/filepath"
 	"sort"
@@ -255,7 +256,7 @@ func (e *Engine) solve(o *Obligation, outDir string, idx int, timeoutS int, both
 	}
 	res.File = filepath.Join(outDir, fmt.Sprintf("%05d.smt2", idx))
 	_ = os.WriteFile(res.File, []byte("; "+o.Name()+"\n; "+o.Pos+"\n"+script), 0o644)
-	if len(script) > 2000000 {
+	if len(script) > vcCap() {
 		res.Status = "toolarge"
 		return res
 	}
@@ -396,3 +397,13 @@ func firstLines(s string, n int) string {
 }
 
 // lemmaInstances: see lemmas.go
+
+// vcCap: queries larger than this are not sent to the solvers (status toolarge). 2 MB by default; GOVC_VC_CAP overrides (dev).
+func vcCap() int {
+	if v := os.Getenv("GOVC_VC_CAP"); v != "" {
+		if n, err := strconv.Atoi(v); err == nil {
+			return n
+		}
+	}
+	return 2000000
+}
